@@ -55,6 +55,10 @@ const INTEG: Profile = Profile {
     name: "INTEG",
     faults: false,
 };
+const INTEGADM: Profile = Profile {
+    name: "INTEGADM",
+    faults: false,
+};
 const AUTH: Profile = Profile {
     name: "AUTH",
     faults: false,
@@ -129,9 +133,9 @@ pub fn plan(id: &str) -> Option<Plan> {
         "C05" => Plan {
             id: "C05",
             level: "exploration",
-            profiles: vec![MKT, MKT_F],
-            quick_runs: 1600,
-            thorough_runs: 40_000,
+            profiles: vec![MKT, MKT_F, INTEG],
+            quick_runs: 2400,
+            thorough_runs: 45_000,
             rule: "seeded runs of the market profile (fault-free and fault-injecting halves); one evaluation = one classic liquidation (accepted, or rejected with a liquidation error), judged against the reference: eligibility, health improvement, no flips, liquidator health, 95/97.5/2.5 split; boundary liquidator bisects the largest acceptable seize amount on forks; distinct = verdict x decimals pair x liquidator prior position x fork",
         },
         "C07" => Plan {
@@ -177,8 +181,8 @@ pub fn plan(id: &str) -> Option<Plan> {
         "C14" => Plan {
             id: "C14",
             level: "exploration",
-            profiles: vec![ADM, ADM_F, PAUSE, PAUSE_F],
-            quick_runs: 1600,
+            profiles: vec![ADM, ADM_F, PAUSE, PAUSE_F, INTEGADM],
+            quick_runs: 2000,
             thorough_runs: 40_000,
             rule: "seeded runs of the administrator / pause profiles interleaved with market activity (operator churn; fault-free and fault-injecting halves); one evaluation = one financial instruction (accepted or rejected) classified into a cell of the verdict table role x bank state x verdict, or a pause-gated instruction classified by cached-pause region; distinct = cell",
         },
